@@ -409,6 +409,16 @@ func (f *flow) Start(ctx context.Context) {
 							for _, handle := range flowHandlers {
 								handle(ctx)
 							}
+							if !flowed {
+								// the current flow did not move (the condition of its own sequence flow
+								// was not met): the forked flows carry on, this one ends here instead of
+								// asking the node it stayed on for another action
+								f.tracer.Send(TerminationTrace{
+									FlowId: f.Id(),
+									Source: source,
+								})
+								return
+							}
 						} else {
 							// no flows to continue with, abort
 							f.tracer.Send(TerminationTrace{
